@@ -15,7 +15,7 @@ CHECKS = {
    text="Every history of stores (8/16/32/64 bit at every address around the 0x400 page boundary, two slots), clone and set_permissions to depth 2 (tiny alphabet 3) in quick, depth 3 (reduced alphabet 4) in thorough, for endian x backing x {Constant, Expression}; every load width 8..128 at every window address, reflexive equality, equality=>same contents and permissions compared in every state. Longer histories and other page boundaries are not covered.",
    note="Trusted: BTreeMap byte reference; Expression loads are evaluated with executor::eval (checked by C04). Permissions of addresses sharing a page with a set range but outside it are unspecified and not compared."),
  "C07": dict(level="model_checking", sec="3/C07", technique="exhaustive enumeration of small IL programs x initial states; lock-step explicit-state product of executor::Driver and a reference IL interpreter, loops closed by state dedup",
-   text="Every function on <=2 blocks x every filling with <=2 (thorough 3) of 21 operations x shapes incl. single conditional edges, non-exhaustive and three-way guards x endianness x initial valuations x memory pre-fill; location, scalars and memory compared after every step, error classes must correspond, on-demand lifting followed. Larger programs/other operand values are not covered.",
+   text="Every function on <=2 blocks x every filling with <=2 (thorough 3) of 23 operations (incl. intrinsics with undeclared, empty and one-scalar write sets) x shapes incl. single conditional edges, non-exhaustive and three-way guards x endianness x initial valuations x memory pre-fill; location, scalars and memory compared after every step, error classes must correspond, on-demand lifting followed. Larger programs/other operand values are not covered.",
    note="Trusted: refil reference semantics (harness). End of a terminal block = ExecutorNoValidLocation accepted as termination."),
  "C09": dict(level="model_checking", sec="3/C09", technique="exhaustive enumeration of all CFGs on <=3 blocks x entry x exit x block sizes x a family of finite-lattice analyses; oracle = Kleene iteration cross-checked by brute-force search for the least solution",
    text="All 2^(n*n) edge sets for n<=3 with every entry/exit and block sizes, four analyses (three monotone, one non-monotone) under rotations of the transfer assignment, forward/backward, force, step budgets; the returned map must have exactly the reachable locations and equal the least solution, or be an error when non-monotone / out of budget. Larger CFGs and other lattices are not covered.",
@@ -48,10 +48,10 @@ CHECKS = {
    text="All 7 architectures: every register the default calling convention names must be emitted by the translator with that width (universe = all scalars from lifting all 32 register numbers / all ModRM x REX forms), stack pointer, word size, endianness, argument order for n<16, stack-argument stride, return register, return address, preserved/trashed disjoint, sp preserved. The configuration space is finite and fully enumerated.",
    note="Trusted: psABI transcription for argument order/return conventions (harness tables). The base offset of the stack-argument area is not part of the statement and only reported."),
  "C06": dict(level="model_checking", sec="3/C06", technique="exhaustive enumeration of small machine-code programs x window alignments x entries x manual-edge sets; explicit lock-step comparison of the recovered CFG's executions with an instruction-at-a-time fetch-execute loop",
-   text="For 7 translators: all programs of <=3 (thorough 4) instructions over {inc, nop, conditional branch to any index, jump to any index, return} x both condition values x nop runs placing each position at window offsets 56..66 x entry at instruction 0/1 x 3 manual-edge sets; address traces, final registers, per-instruction IL counts, entry address, dangling edges and manual-edge presence compared. Larger programs and other instruction mixes are not covered.",
+   text="For 7 translators: all programs of <=3 (thorough 4) instructions over {inc, nop, conditional branch to any index, jump to any index, return; on x86 also an instruction whose immediate is an overlapping instruction stream and branches into its middle} x both condition values x nop runs placing each position at window offsets 56..66 x entry at instruction 0/1 x 3 manual-edge sets; address traces, final registers, per-instruction IL counts, entry address, dangling edges and manual-edge presence compared. Larger programs and other instruction mixes are not covered.",
    note="Trusted: refil reference semantics; per-instruction meaning is taken from the lifter itself (single-instruction lifting), so only composition is judged."),
  "C01": dict(level="exploration", sec="3/C01", technique="exhaustive byte-grammar x boundary-state grid executed on the host CPU (native trampoline) and on the lifted IL under a reference interpreter; exhaustive within the stated grid, no sampling",
-   text="Every encoding of the grammar [66/F2/F3][REX][all 1-byte/0F opcodes + 0F38/3A rows][ModRM/SIB forms][imm patterns] the lifter accepts, x the cross product of boundary values for every register the IL reads, flag valuations, memory patterns (20 M CPU executions in quick); GPRs, XMM, CF/ZF/SF/OF/DF, scratch memory, stack and next address compared. 32-bit mode through long-mode equivalent encodings. Segment, far, privileged and 32-bit stack instructions are not executed; values outside the alphabets are not covered.",
+   text="Every encoding of the grammar [66/F2/F3][REX][all 1-byte/0F opcodes + 0F38/3A rows][ModRM/SIB forms: quick 14 forms, plus every /r in register, [rax] and [rbx+disp8] form for the opcode groups; thorough all 256 x 5 SIB][imm patterns] the lifter accepts, x the cross product of boundary values for every register the IL reads, flag valuations, memory patterns (21.6 M CPU executions in quick); GPRs, XMM, CF/ZF/SF/OF/DF, scratch memory, stack and next address compared. 32-bit mode through long-mode equivalent encodings. Segment, far, privileged and 32-bit stack instructions are not executed; values outside the alphabets are not covered.",
    note="Trusted: the host CPU, the trampoline/signal recovery, SDM undefined-flag masks, refil. Verdicts for behaviour the SDM leaves undefined are masked so they do not depend on the CPU vendor."),
  "C02": dict(level="exploration", sec="3/C02", technique="exhaustive instruction-word grid x boundary-state grid; lifted IL under a reference IL interpreter compared with reference MIPS32/Power ISA interpreters written from the manuals",
    text="MIPS (both endiannesses): every accepted opcode/funct/regimm x register roles with all aliasing x immediates x shift amounts, every branch x 8 delay-slot instructions; PPC: every accepted primary/extended opcode x roles x immediates x rlwinm SH/MB/ME cube x BO/BI; x boundary values for sources, HI/LO, CR/CTR/LR/CA, four alignments. GPRs, HI/LO, LR/CTR/CR/CA, memory, next PC and trap<->intrinsic compared. Values outside the alphabets are not covered.",
@@ -60,8 +60,8 @@ CHECKS = {
    text="Every control-field value of add/sub immediate/shifted/extended, MOV aliases, all load/store addressing modes incl. pairs, literal, acquire/release and SIMD&FP register forms, all branch kinds; register fields over {0,1,2,30,31} with aliasing; boundary immediates; boundary values squared, all 16 NZCV valuations for conditional branches, both data endiannesses; X0-X30, SP, NZCV, V0-V31, memory, next PC compared (28 k accepted words, 0.95 M states in quick). Values outside the alphabets are not covered.",
    note="Trusted: harness A64 reference interpreter (AddWithCarry, ShiftReg, ExtendReg, DecodeBitMasks), refil. CONSTRAINED UNPREDICTABLE forms skipped; accepted words the reference does not model are counted."),
  "C19": dict(level="exploration", sec="3/C19", technique="exhaustive lattice of abstract ELF images emitted by an independent ELF writer, loaded at several bases; oracle = the abstract description plus the base-0/base-B differential",
-   text="All combinations of 7 class/endianness/machine targets x segment layouts (vaddr, filesz, memsz>filesz, 4 permission sets, second segment, interleaved non-load headers) x symbol sets (defined/undefined/zero-valued functions, objects, duplicates across symtab/dynsym, a PLT relocation) x entry choices x user entries x 3 bases: exact byte/permission/unmapped image, architecture, endianness, function-entry set, and uniform rebasing of sections, entries, symbols and program entry. The ElfLinker (multi-object relocation) is not covered.",
-   note="Trusted: harness ELF writer (independent of goblin). Relocation processing across several objects is outside this check."),
+   text="All combinations of 7 class/endianness/machine targets x segment layouts (vaddr, filesz, memsz>filesz, 4 permission sets, second segment, interleaved non-load headers) x symbol sets (defined/undefined/zero-valued functions, objects, duplicates across symtab/dynsym, a PLT relocation) x entry choices x user entries x 3 bases: exact byte/permission/unmapped image, architecture, endianness, function-entry set, and uniform rebasing of sections, entries, symbols and program entry. ElfLinker (EM_386): 5 topologies of {main, libA.so, libB.so} x every assignment of {none, RELATIVE, {GLOB_DAT, JMP_SLOT, R_386_32} x every symbol of the link} to the relocation slots (1 per object, thorough 2/2/1), objects written to scratch files: every relocated word = base(definer)+value, every other byte = union of the objects' images. MIPS relocation processing and symbol interposition order are not covered.",
+   note="Trusted: harness ELF writer (independent of goblin). A link that returns an error is counted, not judged."),
 }
 NA = []
 def main():
